@@ -453,6 +453,15 @@ pub fn run(rep: &Report) {
         let f: &'static str = fam;
         run_in_workers(rep, f, nshards, 300, generic(f));
     }
+    // cost growth of registering layered acyclic include graphs (judged by growth, see c11::check_layered_growth):
+    // registration must not take a number of steps exponential in the depth of an acyclic set
+    {
+        let mut l = Local::new();
+        if let Err(f) = super::c11::check_layered_growth(&mut l) {
+            rep.fail(Fail::new(f.signature.replace("C11/", "C06/"), f.what, f.case));
+        }
+        rep.merge(l);
+    }
     // deep shapes: one process per shape
     let shapes = all_shapes(rep.tier);
     rep.extra("shapes", json!(shapes.len()));
@@ -473,6 +482,10 @@ pub fn run(rep: &Report) {
 }
 
 pub fn replay(_rep: &Report, case: &serde_json::Value) -> Option<Check> {
+    if case.get("kind").and_then(|x| x.as_str()) == Some("layered") {
+        let mut l = Local::new();
+        return Some(super::c11::check_layered_growth(&mut l).map_err(|f| Fail::new(f.signature.replace("C11/", "C06/"), f.what, f.case)));
+    }
     // replays run in this process: a crash-class case will kill the replay, which the exit status shows
     let mut l = Local::new();
     match case.get("kind")?.as_str()? {
